@@ -19,6 +19,7 @@
 #include <bee2/math/ecp.h>
 #include <bee2/crypto/bign.h>
 #include <bee2/crypto/bign96.h>
+#include <bee2/crypto/g12s.h>
 
 /* ------------------------------------------------------------------ exact-size memory */
 /* Fresh memory is filled with VERIF_FILL (default 0).  NOTE: the J functions signal O by zeroing Z only and leave
@@ -684,15 +685,15 @@ static void rec_mul_line(const curve_t* c, const char* cls, const word* base, co
 	rec_begin(c, "mul"); jStr("cls", cls); jInt("heavy", heavy); jW("d", d, m); jP("P", c, base); jP("R", c, ok ? r : 0); jEnd();
 	free(r);
 }
-static void rec_std(const char* name, size_t l, const octet* p, const octet* a, const octet* b, const octet* q, const octet* yG, int nheavy, int nlaws)
+static void rec_std(const char* name, size_t no, const octet* p, const octet* a, const octet* b, const octet* q, const octet* xG, const octet* yG, int nheavy, int nlaws)
 {
 	static curve_t C; curve_t* c = &C;
-	const size_t no = l / 4, n = W_OF_O(no), n1 = W_OF_O(no + 8);    /* n1: a scalar 8 octets longer than q (any word size) */
+	const size_t n = W_OF_O(no), n1 = W_OF_O(no + 8);    /* n1: a scalar 8 octets longer than q (any word size) */
 	word* G; word* d = WALLOC(n1); word* e = WALLOC(n1); word* qw = WALLOC(n1);
 	word* r1 = WALLOC(2 * n); word* r2 = WALLOC(2 * n); word* P = WALLOC(2 * n);
 	int t, ok1, ok2;
 	if (!curve_create(c, name, no, p, a, b) ||
-		!ecCreateGroup(c->ec, 0, yG, q, no, 1, stk(ecCreateGroup_deep(c->f->deep)))) { fprintf(stderr, "%s: cannot create\n", name); exit(4); }
+		!ecCreateGroup(c->ec, xG, yG, q, no, 1, stk(ecCreateGroup_deep(c->f->deep)))) { fprintf(stderr, "%s: cannot create\n", name); exit(4); }
 	G = c->ec->base;
 	wwSetZero(qw, n1); wwFrom(qw, q, no);
 	rec_begin(c, "group"); jLimbs16("q", q, no); jP("P", c, G);
@@ -791,13 +792,23 @@ static int run_record(const char* tier)
 	}
 	/* (C) the standard curves */
 	if (bignParamsStd(bp, "1.2.112.0.2.0.34.101.45.3.1") == ERR_OK)
-		rec_std("bign128", bp->l, bp->p, bp->a, bp->b, bp->q, bp->yG, suite ? 0 : (thorough ? 5 : 2), suite ? 4 : (thorough ? 40 : 10));
+		rec_std("bign128", bp->l / 4, bp->p, bp->a, bp->b, bp->q, 0, bp->yG, suite ? 0 : (thorough ? 5 : 2), suite ? 4 : (thorough ? 40 : 10));
 	if (bign96ParamsStd(bp, "1.2.112.0.2.0.34.101.45.3.0") == ERR_OK)
-		rec_std("bign96", bp->l, bp->p, bp->a, bp->b, bp->q, bp->yG, thorough ? 5 : 0, suite ? 4 : (thorough ? 40 : 10));
+		rec_std("bign96", bp->l / 4, bp->p, bp->a, bp->b, bp->q, 0, bp->yG, thorough ? 5 : 0, suite ? 4 : (thorough ? 40 : 10));
 	if (bignParamsStd(bp, "1.2.112.0.2.0.34.101.45.3.2") == ERR_OK)
-		rec_std("bign192", bp->l, bp->p, bp->a, bp->b, bp->q, bp->yG, thorough ? 3 : 0, suite ? 2 : (thorough ? 30 : 6));
+		rec_std("bign192", bp->l / 4, bp->p, bp->a, bp->b, bp->q, 0, bp->yG, thorough ? 3 : 0, suite ? 2 : (thorough ? 30 : 6));
 	if (bignParamsStd(bp, "1.2.112.0.2.0.34.101.45.3.3") == ERR_OK)
-		rec_std("bign256", bp->l, bp->p, bp->a, bp->b, bp->q, bp->yG, thorough ? 2 : 0, suite ? 2 : (thorough ? 30 : 6));
+		rec_std("bign256", bp->l / 4, bp->p, bp->a, bp->b, bp->q, 0, bp->yG, thorough ? 2 : 0, suite ? 2 : (thorough ? 30 : 6));
+	/* GOST R 34.10-2012 curves (g12s): Crandall and Montgomery rings of 4 and 8 words, base points with x # 0 */
+	if (thorough)
+	{
+		static const char* GN[4] = { "1.2.643.2.2.35.1", "1.2.643.2.2.35.2", "1.2.643.7.1.2.1.2.1", "1.2.643.7.1.2.1.2.2" };
+		static const char* GS[4] = { "cryptoproA", "cryptoproB", "paramsetA512", "paramsetB512" };
+		g12s_params gp[1]; int i;
+		for (i = 0; i < 4; ++i)
+			if (g12sParamsStd(gp, GN[i]) == ERR_OK)
+				rec_std(GS[i], gp->l / 8, gp->p, gp->a, gp->b, gp->q, gp->xP, gp->yP, i == 0 ? 1 : 0, 12);
+	}
 	return 0;
 }
 
